@@ -611,3 +611,75 @@ contract(
     stubs=CELL_STUBS,
     name="Alcoholic.__init__", native=False,
 )
+
+
+# ---------------------------------------------------------------- Carboxylic.__init__: the two alternatives of an acid hydrogen
+# For a carboxylic hydrogen that is present, the half-turn image about its C-O bond is taken through set_dihedral_angle
+# (there and back: +180 degrees, then +180 degrees again on the torsion stored by the first move), the original atom is
+# renamed <H>1 and stays where the input had it, a new atom <H>2 is created at the image, registered in the cells and
+# bonded to the oxygen both ways.  set_dihedral_angle is a stub that swaps the hydrogen between its place and its image
+# (ghost fields ax, ay, az), stores the torsion and keeps the registration (its own contract: debump.py).
+def stub_set_dihedral_swap(self, residue, anglenum, angle):
+    residue.g_angles.append(angle)
+    h = residue.g_mover
+    tx = h.x
+    ty = h.y
+    tz = h.z
+    h.x = h.ax
+    h.y = h.ay
+    h.z = h.az
+    h.ax = tx
+    h.ay = ty
+    h.az = tz
+    h.reg = (h.x, h.y, h.z)
+    residue.dihedrals[anglenum] = angle
+
+
+def CA_(nm, name, bonds=(), **extra):
+    return Named(nm, Obj("pdb2pqr.structures:Atom", name=Const(name), x=Named(nm + "x", Real), y=Named(nm + "y", Real),
+                         z=Named(nm + "z", Real), bonds=Items(*[Ref(b) for b in bonds]), residue=Ref("res"), refdistance=Int,
+                         reg=TupleOf(Ref(nm + "x"), Ref(nm + "y"), Ref(nm + "z")), **extra))
+
+
+contract(
+    "pdb2pqr.hydrogens.structures:Carboxylic.__init__", ["C14", "C03"],
+    params={"self": Obj("pdb2pqr.hydrogens.structures:Carboxylic"),
+            "residue": Named("res", Obj(
+                "pdb2pqr.aa:ASP", name=Const("ASP"), is_c_term=Const(0), patches=Items(),
+                dihedrals=Items(Real, Real, Const(None), Named("chi", Real)),
+                g_angles=Items(), g_mover=Ref("c_hd2"),
+                atoms=Items(Ref("c_cg"), Ref("c_od1"), Ref("c_od2"), Ref("c_hd2")),
+                map=DictOf(("CG", CA_("c_cg", "CG", ["c_od1", "c_od2"])), ("OD1", CA_("c_od1", "OD1", ["c_cg"])),
+                           ("OD2", CA_("c_od2", "OD2", ["c_cg", "c_hd2"])),
+                           ("HD2", CA_("c_hd2", "HD2", ["c_od2"], ax=Real, ay=Real, az=Real))),
+                pool=Items(POOLATOM("p1"), POOLATOM("p2")),
+                reference=Obj("pdb2pqr.definitions:DefinitionResidue",
+                              dihedrals=Items(Const("N CA CB CG"), Const("CA CB CG OD1"), Const("CB CG OD1 HD1"),
+                                              Const("CB CG OD2 HD2")), map=DictOf()))),
+            "optinstance": Obj("Opt", map=DictOf(("HD1", Obj("OptAtom", bond=Const("OD1"))), ("HD2", Obj("OptAtom", bond=Const("OD2"))))),
+            "routines": ROUTINES()},
+    requires=[],
+    ensures=[
+        # there and back: two moves of this hydrogen's torsion, each by half a turn of what is stored at that moment
+        "len(res.g_angles) == 2 and res.g_angles[0] == 180 + chi and res.g_angles[1] == 180 + (180 + chi)",
+        # the original is renamed and back where the input had it; the alternative sits at the image
+        "not ('HD2' in res.map) and res.map['HD21'] is c_hd2 and c_hd2.name == 'HD21'",
+        "c_hd2.x == old(c_hd2.x) and c_hd2.y == old(c_hd2.y) and c_hd2.z == old(c_hd2.z)",
+        "res.map['HD22'].x == old(c_hd2.ax) and res.map['HD22'].y == old(c_hd2.ay) and res.map['HD22'].z == old(c_hd2.az)",
+        "len(res.atoms) == 5 and len(res.map) == 5 and forall(res.atoms, lambda a: res.map[a.name] is a)",
+        # both are in the cell list where they are (C14); the new one is bonded to its oxygen both ways, once
+        "registered(c_hd2) and registered(res.map['HD22'])",
+        "len(res.map['HD22'].bonds) == 1 and res.map['HD22'].bonds[0] is c_od2 and len(c_od2.bonds) == 3 and c_od2.bonds[2] is res.map['HD22']",
+        "res.map['HD22'].refdistance == c_hd2.refdistance",
+        # what the optimiser will work on: both alternatives, and the oxygen that carries them
+        "len(self.hlist) == 2 and self.hlist[0] is c_hd2 and self.hlist[1] is res.map['HD22']",
+        "exists(self.atomlist, lambda a: a is c_od2) and forall(self.atomlist, lambda a: a is c_od1 or a is c_od2)",
+        # no heavy atom moved
+        "c_cg.x == old(c_cg.x) and c_od1.x == old(c_od1.x) and c_od2.x == old(c_od2.x) and c_od2.y == old(c_od2.y) and c_od2.z == old(c_od2.z)",
+    ],
+    stubs=dict(CELL_STUBS, **{"pdb2pqr.aa:Amino.create_atom": "stub_create_atom_flip",
+                              "pdb2pqr.debump:Debump.set_dihedral_angle": "stub_set_dihedral_swap"}),
+    trace={"pdb2pqr.utilities:distance": Real, "pdb2pqr.aa:Amino.set_donors_acceptors": None,
+           "pdb2pqr.residue:Residue.set_donors_acceptors": None},
+    name="Carboxylic.__init__", native=False,
+)
